@@ -926,6 +926,21 @@ pub fn plan_world(ws: u64, corpus: &Corpus, o: &PlanOpts) -> World {
                     cfg.argv.push(format!("--sim-arg={}", rng.next_u64() % 1000));
                 } else if !corpus.dict_argv.is_empty() && rng.chance(1, 3) {
                     cfg.argv.push(rng.pick(&corpus.dict_argv).clone());
+                } else if rng.chance(1, 2) {
+                    // a well-formed option as rustc is really given it: a flag and its value as
+                    // two arguments or glued together
+                    const UNITS: [(&str, &str); 14] = [
+                        ("-C", "opt-level=3"), ("-C", "opt-level=0"), ("-C", "opt-level=s"), ("-C", "debuginfo=2"), ("-C", "panic=abort"), ("-C", "debug-assertions=off"), ("--crate-name", "consumer"), ("--crate-type", "lib"), ("--crate-type", "proc-macro"), ("--cfg", "feature=\"syn2\""), ("--target", "wasm32-unknown-unknown"), ("--cap-lints", "allow"), ("--edition", "2018"), ("-Z", "unpretty=expanded"),
+                    ];
+                    let (a, b) = *rng.pick(&UNITS);
+                    match rng.below(3) {
+                        0 if a.len() == 2 => cfg.argv.push(format!("{}{}", a, b)),
+                        1 if a.starts_with("--") => cfg.argv.push(format!("{}={}", a, b)),
+                        _ => {
+                            cfg.argv.push(a.to_string());
+                            cfg.argv.push(b.to_string());
+                        },
+                    }
                 } else {
                     cfg.argv.push(rng.pick(&ARGV_POOL).to_string());
                 }
